@@ -360,6 +360,52 @@ def parseM {T : Type} (H : Hier) (caughtP : List Cls) (lark : M T) : M T :=
   | .ok t => .ok t
   | .error c => if caught H caughtP c then .error celParse else .error c
 
+/-! ### Sessions: one `Environment` used for several texts (round 2)
+
+`Environment.compile` hands the text to the Environment's `CELParser`, which KEEPS it (`self.text`, read by
+`error_text` for the command line's source excerpt); `Environment.program` builds a runner around the tree;
+`Runner.evaluate` runs it under an activation. A session is any interleaving of these calls. The model keeps the
+parser's last text as state and evaluates a program with `runI`, which does not read that state — the content of
+the session theorems is that NO history changes what may escape from a step. -/
+
+inductive Step (T N : Type) where
+  | compile (text : T)                  -- `env.compile(text)` followed by `env.program(ast)`
+  | evaluate (i : Nat) (act : N)        -- `programs[i].evaluate(act)`; nothing happens when there is no such program
+
+inductive Out (V : Type) where
+  | tree | value (v : V) | raised (c : Cls) | skipped
+
+structure Session (T : Type) where
+  lastText : Option T := none           -- `CELParser.text`
+  progs : List Expr := []
+
+section
+variable {V N T : Type} (H : Hier) (hs : Rule → List Cls) (P : Prims V N) (caughtP : List Cls) (lark : T → M Expr)
+
+def stepS (s : Session T) : Step T N → Session T × Out V
+  | .compile t =>
+      match parseM H caughtP (lark t) with
+      | .ok e => ({ lastText := some t, progs := s.progs ++ [e] }, .tree)
+      | .error c => ({ s with lastText := some t }, .raised c)
+  | .evaluate i act =>
+      match s.progs[i]? with
+      | none => (s, .skipped)
+      | some e =>
+          match runI H hs P act e with
+          | .ok v => (s, .value v)
+          | .error c => (s, .raised c)
+
+/-- the outcomes of a history of steps, in order -/
+def runS : Session T → List (Step T N) → List (Out V)
+  | _, [] => []
+  | s, st :: rest => let r := stepS H hs P caughtP lark s st; r.2 :: runS r.1 rest
+
+/-- the state after a history -/
+def stateS : Session T → List (Step T N) → Session T
+  | s, [] => s
+  | s, st :: rest => stateS (stepS (V := V) H hs P caughtP lark s st).1 rest
+end
+
 mutual
 /-- does the expression contain a (well-formed) `reduce` macro? Its body errors are RAISED (as CELEvalError). -/
 def Expr.hasReduce : Expr → Bool
